@@ -129,6 +129,8 @@ class FnTranslator:
             return '(negb (Qeq_bool %s 0))' % t
         if ty == 'S':
             return '(negb (String.eqb %s ""%%string))' % t
+        if ty == 'LS':
+            return '(match %s with nil => false | cons _ _ => true end)' % t
         if ty == 'OQ':
             return '(match %s with Some q_ => negb (Qeq_bool q_ 0) | None => false end)' % t
         if ty == 'OZ':
@@ -780,6 +782,13 @@ class FnTranslator:
             if tkeys is None or ekeys is None:
                 raise Refuse('%s: unsupported if-statement shape' % self.rel)
             names = [v for v in dict.fromkeys(tkeys + ekeys) if not self.is_tuple_tmp(v)]   # temporaries of `a, b = x, y` are branch-local
+            # a variable bound on one side only and unbound before is branch-local when nothing after the if reads it
+            # (including the loop-carried / returned expressions); otherwise the translator refuses
+            later = ' '.join(ast.unparse(x) for x in rest) + ' ' + ' '.join(c for c, _ in (getattr(self, 'loop_carried', None) or []))
+            def read_later(v):
+                import re as _re
+                return _re.search(r'(?<![\w.])' + _re.escape(v) + r'(?![\w])', later) is not None
+            names = [v for v in names if v in env or (v in tkeys and v in ekeys) or read_later(v)]
             for v in names:
                 if v not in env and not (v in tkeys and v in ekeys):
                     raise Refuse('%s: %s assigned on one branch only and not defined before' % (self.rel, v))
@@ -889,8 +898,10 @@ class FnTranslator:
                 env[key] = (nm, v[1])
             elif isinstance(s, ast.If):
                 keys = [k for k in self.assigned_keys([s], env) if not self.is_tuple_tmp(k)]
+                kt = self.assigned_keys(s.body, env) or []
+                ke = self.assigned_keys(s.orelse, env) if s.orelse else []
                 for k in keys:
-                    if k not in env:
+                    if k not in env and not (k in kt and k in (ke or [])):
                         raise Refuse('%s: %s assigned in a nested branch only and not defined before' % (self.rel, k))
                 c = self.cond(s.test, env)
                 tv = self.branch_values(s.body, env, keys)
